@@ -46,7 +46,7 @@ FRACS = [0.1, 0.3, 0.5, 0.77, 1.0]
 
 def bounds(tier):
     return {
-        "n_iter": "1..25" if tier == "quick" else "1..60",
+        "n_iter": "1..25" if tier == "quick" else "1..100",
         "T0": T0S, "plateaus": PLATEAUS, "fractions": FRACS, "counts": "0, 1, P-2, P-1, n_iter",
         "windows": "1..4" if tier == "quick" else "1..5", "history_length": "<= 3 windows (<= 12 steps), 1-2 blocks",
     }
@@ -134,7 +134,7 @@ def run_temperature_config(cfg):
 
 
 def temperature_configs(tier):
-    n_max = 25 if tier == "quick" else 60
+    n_max = 25 if tier == "quick" else 100
     for n_iter in range(1, n_max + 1):
         yield {"on": False, "n_iter": n_iter, "T0": None, "P": None}
         for T0 in T0S + [1.0, 0.5]:
@@ -264,7 +264,7 @@ def replay_scale(case):
 
 def shards(tier, seed):
     out = []
-    n_max = 25 if tier == "quick" else 60
+    n_max = 25 if tier == "quick" else 100
     for lo_n in range(1, n_max + 1, 5):
         out.append({"machine": "temperature", "n_lo": lo_n, "n_hi": min(lo_n + 4, n_max), "tier": tier})
     windows = [1, 2, 3, 4] if tier == "quick" else [1, 2, 3, 4, 5]
